@@ -92,8 +92,23 @@ def make_directory(rng, conv, tier):
         victim = rng.choice(bad)
         victim['data'] = victim['data'][:max(0, min(len(f['data']) for f in files) - 1)]
         victim['kind'] += '+shrunk'
-    for i, f in enumerate(ordered):
-        f['name'] = 'f%02d_%s%s' % (i, f['kind'].split(':')[0], f['ext'])
+    naming = rng.choice(['indexed', 'indexed', 'prefix-stems', 'prefix-stems'])
+    if naming == 'indexed':
+        for i, f in enumerate(ordered):
+            f['name'] = 'f%02d_%s%s' % (i, f['kind'].split(':')[0], f['ext'])
+    else:
+        # distinct stems that are prefixes of one another (WELL, WELL-1, WELL 2, WELL1, WELL10 ...): still one output set per input
+        base = rng.choice(['WELL', 'W', 'log.run', 'A_b'])
+        sufs = ['', '-1', ' 2', '(3)', '+x', ',y', '#4', '1', '10', '100', '_a', '_a1', '~z', 'A', 'a', '=5', '.v2', '-1-1', '11']
+        rng.shuffle(sufs)
+        if placement in ('bad-first', 'bad-last'):
+            # keep the intended alphabetical placement: sort the chosen suffixes, deal them in order
+            chosen = sorted(sufs[:len(ordered)], key=lambda x: base + x + '.')
+        else:
+            chosen = sufs[:len(ordered)]
+        for f, sfx in zip(ordered, chosen):
+            f['name'] = base + sfx + f['ext']
+    placement = placement + '/' + naming
     options = {
         'array_reduction': rng.choice(['first', 'first', 'mean', 'median', 'min', 'max']),
         'frame_slice': rng.choice([{}, {}, {'step': 2}, {'start': 1, 'stop': None, 'step': 3}, {'sample': 4}, {'stop': 5}]),
